@@ -15,7 +15,8 @@ RULE = ("cases from one PRNG(seed): kind in dot|norm|dist|sum|wmean|var|moment; 
         "Tolerances: 1e-9 scaled max-norm for exact algebra (scale also bounded below by 1e-4 x the sum of |terms|, so "
         "cancellation cannot raise an alarm); dist family: absolute 1e-6 x (|t|+|u|) computed from absolute-value cores because "
         "sqrt(a+b-2c) has absolute accuracy ~sqrt(eps) x (|t|+|u|); moments: 1e-4 x mean|x|^k because the routine rounds at eps "
-        "(1e-6 / 1e-12, eig). distinct = (kind, format signatures, shapes, ranks, parameters); non-trivial = >1 mode or rank>1 "
+        "(1e-6 / 1e-12, eig). Failure class = (op, first matching input predicate, kind raise|shape|value|law|dtype); a failure seen "
+        "only under the float32 default is classed 'dtype'. distinct = (kind, format signatures, shapes, ranks, parameters); non-trivial = >1 mode or rank>1 "
         "or a factor")
 TRUSTED = ["NumPy reference formulas on an independent decompression (core.PT.dense)",
            "float64 rounding: tolerances as stated in the rule (no bit-exact claim for sqrt / rounded moments)"]
@@ -24,7 +25,7 @@ ASSUMPTIONS = ["inputs are WFstd tensors (documented formats, outer TT ranks 1)"
                "dot(k=None) with t2 fully contracted and >=2 trailing modes of t1: either order of the trailing modes is accepted "
                "(docstring is silent); with explicit k the documented reversed order is required"]
 
-KINDS = {"dot": 200, "norm": 30, "dist": 150, "sum": 110, "wmean": 90, "var": 80, "moment": 90}
+KINDS = {"dot": 400, "norm": 50, "dist": 300, "sum": 200, "wmean": 160, "var": 200, "moment": 160}
 
 
 # ----------------------------------------------------------------------------------------------- generation
